@@ -38,12 +38,27 @@ Definition verdict_obs (v : verdict) : list Z :=
 
 Definition auth_of (z : Z) : auth := if z =? 1 then AuthOK else if z =? 2 then AuthFail else NoAuth.
 Definition enc_of (z : Z) : cenc :=
-  if z =? 1 then EncBadEager else if z =? 2 then EncBadLazy else if z =? 3 then EncUnsupported else EncGood.
+  if z =? 1 then EncBadEager else if z =? 2 then EncBadLazy else if z =? 3 then EncUnsupported
+  else if z =? 4 then EncTruncated else EncGood.
 Definition ct_of_z (z : Z) : ctype := if z =? 0 then CtPb else if z =? 1 then CtJson else CtOther.
 Definition body_of (z : Z) : option N := if z <? 0 then None else Some (Z.to_N z).
 Definition transport_of (z : Z) : transport := if z =? 0 then Grpc else if z =? 1 then HttpPb else HttpJson.
 
 Definition opt_code (o : option Z) : Z := match o with Some c => c | None => -1 end.
+
+(* kind 12: a history, 8 numbers per send: t; a; items; okind; code; rik; nanos; w *)
+Fixpoint sends_of (fuel : nat) (l : list Z) : option (list send) :=
+  match fuel, l with
+  | _, [] => Some []
+  | S f, t :: a :: items :: okind :: code :: rik :: nanos :: w :: r =>
+      match outcome_of okind code rik nanos w, sends_of f r with
+      | Some o, Some ss => Some ((transport_of t, auth_of a, Z.to_N items, o) :: ss)
+      | _, _ => None
+      end
+  | _, _ => None
+  end.
+
+Definition verdict_code (v : verdict) : list Z := verdict_obs v.
 
 (* model output for a case, in the observation's wire form (None: malformed case) *)
 Definition model_out (c : nat * (list Z * list Z)) : option (list Z) :=
@@ -87,6 +102,17 @@ Definition model_out (c : nat * (list Z * list Z)) : option (list Z) :=
                         (transport_of t) NoAuth (Z.to_N items) o in
         [b2z (h_called h)] ++ verdict_obs (h_verdict h) ++ [opt_code (h_err_code h); b2z (h_called h); 1])
         (outcome_of okind code rik nanos w)
+  | 11%nat, [t; read_ms; write_ms; hold_ms; items; okind; code; rik; nanos; w; signal] =>
+      option_map (fun o =>
+        let h := hop_slow (mkTO (read_ms * 1000000) 0 (write_ms * 1000000) 0) (hold_ms * 1000000)
+                          (transport_of t) NoAuth (Z.to_N items) o in
+        [b2z (h_called h)] ++ verdict_obs (h_verdict h) ++ [opt_code (h_err_code h); b2z (h_called h); 1])
+        (outcome_of okind code rik nanos w)
+  | 12%nat, l =>
+      option_map (fun ss =>
+        let '(sink, vs) := run_history ss 0 in
+        flat_map verdict_code vs ++ [-7] ++ map Z.of_nat sink)
+        (sends_of (length l) l)
   | 9%nat, [a; body; okind; code; rik; nanos; w] =>
       option_map (fun o =>
         let '(called, s) := recv_grpc (auth_of a) (body_of body) o in
@@ -118,6 +144,11 @@ Definition check_case (c : nat * (list Z * list Z)) : bool :=
           (* after the shutdown the HTTP route has no gRPC status at all: the error code is compared on gRPC only *)
           (mc =? oc) && (mv =? ov) && (md =? od) && (mn =? on) && (me =? oe)
           && ((mcode =? ocode) || ((ph =? 2) && negb (t =? 0)))
+      | 11%nat, _, [mc; mv; md; mcode; mn; me], [oc; ov; od; ocode; on; oe] =>
+          (* a response that could not be written leaves no gRPC status at all on the HTTP route: when the model
+             says the connection was lost (no code) the error code is not compared *)
+          (mc =? oc) && (mv =? ov) && (md =? od) && (mn =? on) && (me =? oe)
+          && ((mcode =? ocode) || ((mcode =? (-1)) && negb (mv =? 0)))
       | 7%nat, _, [mcalled; mst; mrp; mrs; mbc], [ocalled; ost; orp; ors; obc] =>
           (* obc = -3: HEAD request, the response has no body to look at *)
           (mcalled =? ocalled) && (mst =? ost) && (mrp =? orp) && (mrs =? ors) && ((obc =? (-3)) || (mbc =? obc))
